@@ -95,6 +95,7 @@ def shards(tier, seed):
             out.append(('tok', n, t0, k))
     out.append(('misc', None, None, None))
     out.append(('tz', None, None, None))
+    out.append(('rewrite', None, None, None))
     MB = 1 << 20
     for n in (MB - 1, MB, MB + 1, MB * 5 // 2):
         out.insert(0, ('big', n, None, None))
@@ -108,7 +109,7 @@ def bounds(tier, seed):
             'if_modified_since': ['absent', 'mtime-1', 'mtime', 'mtime+1', 'garbage'], 'process_time_zones': ZONES, 'methods': ['GET', 'HEAD']}
 
 
-FLOORS = {'tz_cases': 50, 'r206': 1000, 'r416': 1000, 'r304': 20, 'r200': 20, 'head_pairs': 100, 'multi_chunk_206': 50,
+FLOORS = {'rewrite_probes': 50, 'tz_cases': 50, 'r206': 1000, 'r416': 1000, 'r304': 20, 'r200': 20, 'head_pairs': 100, 'multi_chunk_206': 50,
           'canonical_sat': 200, 'canonical_unsat': 100}
 
 
@@ -229,6 +230,37 @@ def judge(c, n, rng, ims_kind, method, buf):
     return 'status', f'unexpected status {c.status} for Range {rng!r}'
 
 
+def judge_bytes(c, data, rng, method):
+    """consistency of one answer with the bytes `data` that are on disk (used by the rewrite layer)"""
+    n = len(data)
+    probs = wsgi.pep3333_problems(c, method)
+    if probs:
+        return 'wsgi', probs[0]
+    cl = c.header('Content-Length')
+    if c.code == 200:
+        if cl != str(n) or (method == 'GET' and c.body != data):
+            return 'stale-200', f'200 with Content-Length {cl} and {len(c.body)} bytes; the file now holds {n} bytes'
+        return None
+    if c.code == 206:
+        m = re.match(r'^bytes (\d+)-(\d+)/(\d+)$', c.header('Content-Range') or '')
+        if not m:
+            return 'cr-syntax', f'Content-Range {c.header("Content-Range")!r}'
+        s, e, tot = map(int, m.groups())
+        if tot != n or not (0 <= s <= e < n) or cl != str(e - s + 1) or (method == 'GET' and c.body != data[s:e + 1]):
+            return 'stale-206', (f'206 {c.header("Content-Range")!r} Content-Length {cl} body {c.body!r}; the file now holds {n} bytes '
+                                 f'{data!r}')
+        klass, sl = ref_range(rng, n)
+        if sl in ('unsat', None) or (s, e) != sl:
+            return 'wrong-slice', f'206 {c.header("Content-Range")!r} for {rng!r} on the {n}-byte file; expected {sl}'
+        return None
+    if c.code == 416:
+        klass, sl = ref_range(rng, n) if rng else ('other', None)
+        if klass == 'canonical' and sl not in ('unsat', None):
+            return 'refused-sat', f'416 for {rng!r}, satisfiable on the current {n}-byte file'
+        return None
+    return 'status', f'unexpected status {c.status}'
+
+
 def hdrs_for_compare(c):
     return sorted((k, v) for k, v in (c.headers or []) if k.lower() != 'date')
 
@@ -303,6 +335,31 @@ def work(spec):
                     for ik in IMS:
                         one(res, ctx, n, rng, ik, BUF, with_head=True)
             core.add_sample(res, {'misc_ranges': rngs, 'ims': list(IMS)})
+        elif kind == 'rewrite':
+            # one file name, rewritten with other lengths while its modification time (whole second) stays the same:
+            # every answer must describe the bytes that are on disk NOW
+            ctx.small_buffer(True)
+            name = 'rw.bin'
+            p = os.path.join(ctx.T, name)
+            for step, n in enumerate([5, 9, 3, 12, 0, 7, 7, 11]):
+                data = bytes(((i + step) * 37 + 11) % 256 for i in range(n))
+                with open(p, 'wb') as f:
+                    f.write(data)
+                os.utime(p, ns=(MTIME * 10 ** 9 + step * 10 ** 7, MTIME * 10 ** 9 + step * 10 ** 7))
+                for rng in (None, 'bytes=0-', 'bytes=-2', 'bytes=2-20', 'bytes=1-1', 'bytes=8-'):
+                    for method in ('GET', 'HEAD'):
+                        h = {'Range': rng} if rng else {}
+                        c = wsgi.call(ctx.app, wsgi.environ(method, '/c17/' + name, headers=h))
+                        res['states'] += 1
+                        res['transitions'] += 1
+                        res['counters']['rewrite_probes'] += 1
+                        bad = judge_bytes(c, data, rng, method)
+                        res['outcomes'].add(f'rewrite {c.code} {"ok" if bad is None else bad[0]}')
+                        if bad:
+                            core.add_violation(res, {'rewrite_step': step, 'range': rng, 'method': method},
+                                               f'file rewritten {step} times within one second (now {n} bytes), {method} Range={rng!r}: {bad[1]}',
+                                               sig='rewrite:' + bad[0])
+            core.add_sample(res, {'rewrite_lengths': [5, 9, 3, 12, 0, 7, 7, 11]})
         elif kind == 'tz':
             # the server process may run in any time zone: conditional requests must not depend on it
             import time
@@ -341,8 +398,36 @@ def work(spec):
     return res
 
 
+def replay_rewrite(case):
+    ctx = Ctx()
+    try:
+        ctx.small_buffer(True)
+        name = 'rw.bin'
+        p = os.path.join(ctx.T, name)
+        for step, n in enumerate([5, 9, 3, 12, 0, 7, 7, 11]):
+            data = bytes(((i + step) * 37 + 11) % 256 for i in range(n))
+            with open(p, 'wb') as f:
+                f.write(data)
+            os.utime(p, ns=(MTIME * 10 ** 9 + step * 10 ** 7, MTIME * 10 ** 9 + step * 10 ** 7))
+            for rng in (None, 'bytes=0-', 'bytes=-2', 'bytes=2-20', 'bytes=1-1', 'bytes=8-'):
+                for method in ('GET', 'HEAD'):
+                    h = {'Range': rng} if rng else {}
+                    c = wsgi.call(ctx.app, wsgi.environ(method, '/c17/' + name, headers=h))
+                    if step == case['rewrite_step'] and rng == case['range'] and method == case['method']:
+                        bad = judge_bytes(c, data, rng, method)
+                        if bad is None:
+                            return None
+                        return (f'one file rewritten {step} times with other lengths inside the same modification-time second and served after '
+                                f'each rewrite; now {n} bytes, {method} Range={rng!r}: {bad[1]}')
+        return None
+    finally:
+        ctx.close()
+
+
 def replay(case):
     import time
+    if 'rewrite_step' in case:
+        return replay_rewrite(case)
     ctx = Ctx()
     old = os.environ.get('TZ')
     try:
